@@ -62,9 +62,9 @@ pub fn build_source(case: &Value) -> (Vec<u8>, String) {
                 // the LZW text is padded to whole predictor rows; the decoder stops at its end-of-data code
                 crate::refcodec::zlib(&crate::refcodec::png_filter(&padded, 7, 1, &[2])) }),
     };
-    let o = d.stream(8, 0, &format!("/Type /XObject /Subtype /Form /BBox [0 0 9 9] /OC 6 0 R {}", fdict), &fdata, None, false);
+    let o = d.stream(8, 0, &format!("/Type /XObject /Subtype /Form /BBox [0 0 9 9] /OC 6 0 R /Resources << /ExtGState << /GA << /LW 1.5 >> >> >> {}", fdict), &fdata, None, false);
     e.push((8, XEntry::InUse { off: o, gen: 0 }));
-    let o = d.stream(9, 0, "/Type /XObject /Subtype /Form /BBox [0 0 9 9] /Resources << /Properties << /MC0 6 0 R >> /XObject << /Self 9 0 R >> >>", b"0 0 1 1 re f", None, false);
+    let o = d.stream(9, 0, "/Type /XObject /Subtype /Form /BBox [0 0 9 9] /Resources << /ExtGState << /GB << /LW 3.5 >> >> /Properties << /MC0 6 0 R >> /XObject << /Self 9 0 R >> >>", b"0 0 1 1 re f", None, false);
     e.push((9, XEntry::InUse { off: o, gen: 0 }));
     for k in 1..=n {
         let refs: Vec<String> = ids(&edges[k as usize - 1]).iter().map(|r| format!("{} 0 R", 10 + r)).collect();
@@ -76,8 +76,16 @@ pub fn build_source(case: &Value) -> (Vec<u8>, String) {
     (d.buf, content)
 }
 
-fn import(bytes: &[u8], inspect: bool) -> pdf::error::Result<Vec<u8>> {
-    let src = FileOptions::cached().load(bytes.to_vec())?;
+fn import(bytes: &[u8], inspect: bool, cached: bool) -> pdf::error::Result<Vec<u8>> {
+    if cached {
+        import_from(FileOptions::cached().load(bytes.to_vec())?, inspect)
+    } else {
+        // without an object cache the source objects live only while they are being copied
+        import_from(FileOptions::uncached().load(bytes.to_vec())?, inspect)
+    }
+}
+fn import_from<OC, SC>(src: pdf::file::File<Vec<u8>, OC, SC, pdf::file::NoLog>, inspect: bool) -> pdf::error::Result<Vec<u8>>
+where OC: pdf::file::Cache<pdf::error::Result<pdf::any::AnySync, std::sync::Arc<pdf::error::PdfError>>>, SC: pdf::file::Cache<pdf::error::Result<std::sync::Arc<[u8]>, std::sync::Arc<pdf::error::PdfError>>> {
     let page = src.get_page(0)?;
     if inspect {
         // what a viewer does before it copies a page: look at the page's resources, decode their streams
@@ -121,7 +129,7 @@ pub fn run(cases_path: &str, report_path: &str, _opts: &[String]) {
         // the import runs on a thread with a generous stack; a runaway recursion still ends the process (observed by bin/check)
         let b2 = bytes.clone();
         let inspect = case["inspected"].as_bool().unwrap_or(false);
-        let out = std::thread::Builder::new().stack_size(64 << 20).spawn(move || guarded(|| import(&b2, inspect))).unwrap().join();
+        let out = std::thread::Builder::new().stack_size(64 << 20).spawn(move || guarded(|| import(&b2, inspect, ci % 2 == 0))).unwrap().join();
         let new = match out {
             Ok(Outcome::Done(Ok(b))) => b,
             Ok(Outcome::Done(Err(e))) => { rep.count("import-returned-err"); if ci < 3 { rep.notes.push(format!("import err: {}", err_json(&e))); } continue; } // an Err is acceptable
@@ -180,7 +188,11 @@ pub fn run(cases_path: &str, report_path: &str, _opts: &[String]) {
                         for u in &used {
                             let ok = match (u.as_str(), &res) {
                                 ("gs", Some(rs)) => rs.graphics_states.get("GS1").map(|g| g.line_width == Some(2.5)).unwrap_or(false),
-                                ("xobject", Some(rs)) => rs.xobjects.get("R1").map(|x| r.resolve(x.get_inner()).ok().and_then(|p| match p { Primitive::Stream(st) => Some(pdf::object::Stream::<()>::from_stream(st.clone(), &r).and_then(|s| s.data(&r)).map(|d| d.starts_with(b"0 0 9 9 re f") && d[12..].iter().all(|&b| b == 0)).unwrap_or(false)), _ => None }).unwrap_or(false)).unwrap_or(false),
+                                ("xobject", Some(rs)) => rs.xobjects.get("R1").map(|x| r.resolve(x.get_inner()).ok().and_then(|p| match p { Primitive::Stream(st) => Some(pdf::object::Stream::<()>::from_stream(st.clone(), &r).and_then(|s| s.data(&r)).map(|d| d.starts_with(b"0 0 9 9 re f") && d[12..].iter().all(|&b| b == 0)).unwrap_or(false)), _ => None }).unwrap_or(false)).unwrap_or(false)
+                                    // each form keeps the resources it had in the source (its own inline dictionary)
+                                    && [("R1", "GA", 1.5f32), ("R2", "GB", 3.5)].iter().all(|(x, g, lw)| rs.xobjects.get(*x).and_then(|x| r.get(*x).ok()).map(|xo| match &*xo {
+                                        pdf::object::XObject::Form(f) => f.dict().resources.as_ref().map(|res| res.graphics_states.len() == 1 && res.graphics_states.get(*g).map(|p| p.line_width == Some(*lw)).unwrap_or(false)).unwrap_or(false),
+                                        _ => false }).unwrap_or(false)),
                                 ("font", Some(rs)) => rs.fonts.get("R1").map(|l| l.load(&r).map(|ft| ft._other.get("Marker") == Some(&Primitive::Integer(case["resobj"]["font"].as_i64().unwrap() as i32))).unwrap_or(false)).unwrap_or(false),
                                 ("colorspace", Some(rs)) => rs.color_spaces.contains_key("CS1"),
                                 _ => false,
